@@ -262,6 +262,20 @@ impl<'a> Arguments<'a> {
             .map_err(error::Argument::invalid_value(argument_name, argument))
     }
 
+    /// Parse next argument as a [`Location`], defaulting to current value of program counter if
+    /// no argument is given.
+    pub fn next_location_or_default(
+        &mut self,
+        argument_name: &'static str,
+    ) -> Result<Location<'a>, error::Argument> {
+        match self.next_location(argument_name, 1) {
+            Err(error::Argument::MissingArgument { .. }) => {
+                Ok(Location::Memory(MemoryLocation::PCOffset(0)))
+            }
+            result => result,
+        }
+    }
+
     /// Preliminary type check to bypass normal value parsing if type is known to be mismatched.
     ///
     /// Useful to avoid register values parsing as labels, when requesting a [`MemoryLocation`]
